@@ -3,7 +3,7 @@ Every chain / next / child / extension pointer of well-formed images is redirect
 it, to an ancestor, to the root, to another entry, singly and in pairs.  The read-only API then runs with a per-call budget
 of device reads (a small multiple of the volume size, the explicit bound of the property) and a wall-clock alarm; a call
 that exceeds the budget, overflows the stack or is killed by the alarm is a violation."""
-import os, subprocess
+import os, shutil, subprocess
 from . import common, gen, hist, mkimage, mutimg, c10
 from .common import hexs
 
@@ -15,7 +15,7 @@ def run(ctx):
     rng = ctx.rng
     names = [("-", hexs(b"big")), ("-", hexs(b"small")), ("-", hexs(b"lnk")), (hexs(b"dir"), hexs(b"in1")),
              ("%s/%s" % (hexs(b"dir"), hexs(b"sub")), hexs(b"deep")), ("-", hexs(b"dir")), ("-", hexs(b"nonexistent"))]
-    budget = 200 if ctx.tier == "quick" else 12000
+    budget = 2400 if ctx.tier == "quick" else 40000
     done = 0
     bases = c10.base_images(ctx)
     # RDB disk with cyclic partition lists
@@ -29,28 +29,74 @@ def run(ctx):
         owned = [int(x) for x in lines[1].split()[1].split(",")]
         fields = [f for f in mutimg.metadata_fields(data, n, owned, flav) if f[3] in POINTER_FIELDS or f[3].startswith("table[") or f[3].startswith("bmPages")]
         meta_blocks = sorted(set(f[0] for f in fields))
-        cases = []
+        kind_of = {}
+        for f in mutimg.metadata_fields(data, n, owned, flav):
+            kind_of.setdefault(f[0], f[4])
+        by_kind = {}
+        for b, k in kind_of.items():
+            by_kind.setdefault(k, []).append(b)
+        pointed_by = {}
+        for g in fields:
+            pointed_by.setdefault(mkimage.get32(data, g[0] * 512 + g[1]), set()).add(g[0])
+
+        def fname(f):
+            return "table" if f[3].startswith("table[") else ("bmPages" if f[3].startswith("bmPages") else f[3])
+
+        def tkind(f, t):
+            if t == f[0]:
+                return "self"
+            if t in pointed_by.get(f[0], ()):
+                return "pred"
+            return kind_of.get(t, "free" if t not in owned else "data")
+        # every class (kind of block, field, kind of target) gets its share of the budget before any class gets a second case:
+        # a redirect of a data pointer to a header block is a different case from a redirect to another data block
+        classes = {}
         for f in fields:
-            targets = {f[0], n // 2, rng.choice(meta_blocks), rng.choice(meta_blocks)}
-            # the block that points to this one
-            for g in fields:
-                if mkimage.get32(data, g[0] * 512 + g[1]) == f[0]:
-                    targets.add(g[0])
+            targets = {f[0], n // 2} | set(pointed_by.get(f[0], ()))
+            for k, bl in by_kind.items():
+                if k != "boot":
+                    targets.add(rng.choice(bl))
+            hk = mkimage.get32(data, f[0] * 512 + 4)
+            if f[4] == "ofsdata" and 2 <= hk < n:
+                targets.add(hk)             # the file header the data block belongs to
+            free = [b for b in range(2, n) if b not in owned]
+            if free:
+                targets.add(rng.choice(free))
             for t in targets:
-                cases.append(([f], [t]))
-        for _ in range(len(cases) // 3):
+                classes.setdefault((f[4], fname(f), tkind(f, t)), []).append(([f], [t]))
+        for c in classes.values():
+            rng.shuffle(c)
+        order = sorted(classes)
+        rng.shuffle(order)
+        cases = []
+        depth = 0
+        while any(len(classes[c]) > depth for c in order):
+            for c in order:
+                if len(classes[c]) > depth:
+                    cases.append(classes[c][depth])
+            depth += 1
+        ctx.bump("redirect_classes", len(order))
+        per_base = budget // len(bases)
+        singles = cases[: (per_base * 3) // 4]
+        pairs = []
+        for _ in range(per_base - len(singles)):
             (f1, t1), (f2, t2) = rng.choice(cases), rng.choice(cases)
-            cases.append((f1 + f2, t1 + t2))
-        rng.shuffle(cases)
-        for (fs, ts) in cases[: budget // len(bases)]:
+            pairs.append((f1 + f2, t1 + t2))
+        cases = singles + pairs
+        def one(job):
+            k, (fs, ts) = job
             m = data
             for f, t in zip(fs, ts):
                 m = mutimg.mutate(m, n, f, t, True)
-            mp = os.path.join(ctx.work, "c11_m.img")
+            mp = os.path.join(ctx.work, "c11_m%d.img" % k)
             open(mp, "wb").write(m)
             L = c10.read_script(mp, n, names)
             L[0] = "readlimit %d" % (3 * n + 200)
             rc, out, err, wd = common.run_script(ctx, "\n".join(L) + "\n", timeout=100)
+            os.unlink(mp)
+            shutil.rmtree(wd, ignore_errors=True)
+            return (fs, ts, L, rc, out)
+        for (fs, ts, L, rc, out) in common.pmap(one, list(enumerate(cases))):
             done += 1
             ctx.count((flav, tuple((f[0], f[1]) for f in fs), tuple(ts)))
             ctx.bump("redirects:%d" % len(fs))
@@ -58,6 +104,8 @@ def run(ctx):
                 what = {3: "a read-only call exceeded its device-read budget (unbounded loop)", 4: "a read-only call crashed (unbounded recursion / invalid access)",
                         124: "a read-only call did not return within the time limit"}.get(rc, "harness exit %d" % rc)
                 last = out[-1] if out else ""
+                if "sig=14" in last:
+                    what = "a read-only call did not return within the watchdog period (loop that makes no progress and reads nothing)"
                 ctx.fail("oracle" if rc in (3, 124) or "sig=14" in last else "crash", what,
                          {"flavour": flav, "redirects": [{"block": f[0], "offset": f[1], "field": f[3], "block_kind": f[4], "to_block": t} for f, t in zip(fs, ts)],
                           "read_budget_per_call": 3 * n + 200, "script": L[2:9]},
@@ -94,9 +142,38 @@ def run(ctx):
             ctx.bump("rdb_list_cycles")
             if rc != 0:
                 ctx.fail("oracle", "mounting a partitioned disk with a cyclic list did not terminate / crashed (exit %d)" % rc, {"redirect": what, "script": L}, expected="error or data", actual=out[-2:])
+    # volume with bitmap-extension blocks (more than 25 bitmap pages = more than 101600 blocks): cyclic extension list
+    nbig = 4064 * 25 + 2 + 4064 * 2
+    L0 = gen.dev_create("HF:%d" % nbig, 1) + ["dump $W/big.img"]
+    rc, out, err, wd = common.run_script(ctx, "\n".join(L0) + "\n", timeout=300)
+    big = os.path.join(wd, "big.img")
+    if os.path.exists(big):
+        data = open(big, "rb").read()
+        root = nbig // 2
+        ext = mkimage.get32(data, root * 512 + 416)
+        if not (2 <= ext < nbig):
+            ctx.notes.append("no bitmap-extension block on the %d-block hardfile (bmExt=%d)" % (nbig, ext))
+        else:
+            for (blk, off, val, what) in [(ext, 508, ext, "bitmap-extension block.next -> itself"), (ext, 508, root, "bitmap-extension block.next -> root block"),
+                                          (ext, 0, ext, "first page pointer of the extension block -> the extension block"), (ext, 508, 0, "unchanged control")]:
+                m = bytearray(data)
+                mkimage.put32(m, blk * 512 + off, val)
+                mp = os.path.join(ctx.work, "c11_big.img")
+                open(mp, "wb").write(bytes(m))
+                L = ["readlimit %d" % (3 * nbig + 200), "loaddev file %s" % mp, "mountdev 1", "mount 0 1", "free", "list - 0 1", "umount", "umountdev"]
+                rc, out, err, wd2 = common.run_script(ctx, "\n".join(L) + "\n", timeout=200)
+                shutil.rmtree(wd2, ignore_errors=True)
+                ctx.count(("bmext", what))
+                ctx.bump("bitmap_extension_cycles")
+                if rc != 0:
+                    ctx.fail("oracle", "mounting a volume with a cyclic bitmap-extension list did not terminate / crashed (exit %d)" % rc, {"redirect": what, "blocks": nbig, "script": L},
+                             expected="error or data", actual=out[-2:])
+            os.unlink(mp)
+    shutil.rmtree(wd, ignore_errors=True)
     rule = ("each pointer field (hash-table slots, nextSameHash, extension, nextDirC, parent, firstData, nextData, realEntry, bitmap pointers) of each metadata block of "
-            "well-formed base images redirected to itself / its predecessor / the root / another metadata block, singly and in random pairs, checksums repaired; cyclic "
-            "PART/FSHD/LSEG lists; read-only API with a budget of 3*volume+200 device reads per call; distinct = distinct set of redirects")
+            "well-formed base images redirected to itself / its predecessor / the root / its file header / a block of each other kind (dir, file, ext, cache, OFS data, link, free), "
+            "classes (block kind, field, target kind) covered round-robin, then random pairs; checksums repaired; every file also read whole in one call; cyclic "
+            "PART/FSHD/LSEG lists; cyclic bitmap-extension list on a 109730-block hardfile; read-only API with a budget of 3*volume+200 device reads per call; distinct = distinct set of redirects")
     return common.finish(ctx, proof, rule, level="exploration",
                          assumptions=["the bound is on device reads per API call; CPU-only loops are caught by the 60 s alarm of the harness"])
 
